@@ -140,8 +140,19 @@ func VerifC02Validate() {
 	rootCh := &Change{Id: "root", IsSnapshot: true, AclHeadId: aclIds[0]}
 	parent := &Change{Id: "p", PreviousIds: []string{"root"}, SnapshotId: "root", AclHeadId: aclIds[parentIdx], IsDerived: parentDerived}
 	tree := &Tree{}
-	tree.AddFast(rootCh, parent)
 	c := &Change{Id: "c", PreviousIds: []string{"p"}, SnapshotId: "root", AclHeadId: citedId, Identity: &vC02Pub{id: "w"}}
+	// optionally a merge: a second parent with its own cited record
+	parent2Idx, parent2Derived, merge := 0, true, false
+	if rt.Param("parents", 2) >= 2 && rt.Choose(2) == 1 {
+		merge = true
+		parent2Idx = rt.Choose(nRec)
+		parent2Derived = rt.Choose(2) == 1
+		parent2 := &Change{Id: "q", PreviousIds: []string{"root"}, SnapshotId: "root", AclHeadId: aclIds[parent2Idx], IsDerived: parent2Derived}
+		tree.AddFast(rootCh, parent, parent2)
+		c.PreviousIds = []string{"p", "q"}
+	} else {
+		tree.AddFast(rootCh, parent)
+	}
 	v := newTreeValidator(false, false).(*objectTreeValidator)
 	err := v.validateChange(tree, acl, c)
 
@@ -154,6 +165,9 @@ func VerifC02Validate() {
 	}
 	canWrite := rt.AnyOf(refPerm == 1, refPerm == 2, refPerm == 3)
 	okOrder := parentDerived || parentIdx == cited || cited >= parentIdx
+	if merge {
+		okOrder = okOrder && (parent2Derived || parent2Idx == cited || cited >= parent2Idx)
+	}
 	want := rt.AllOf(cited < nRec, hasAccount, canWrite, okOrder)
 	rt.Assert((err == nil) == want, "accepted-iff-writer-at-cited-known-record-not-older-than-parents")
 	if err == nil {
